@@ -6,10 +6,10 @@ package main
 
 import (
 	"bufio"
+	"context"
 	"encoding/json"
 	"flag"
 	"fmt"
-	"io"
 	"log/slog"
 	"os"
 	"reflect"
@@ -284,18 +284,57 @@ func same(c *Case, got Outcome) string {
 	return ""
 }
 
+type quiet struct{}
+
+func (quiet) Enabled(context.Context, slog.Level) bool  { return false }
+func (quiet) Handle(context.Context, slog.Record) error { return nil }
+func (quiet) WithAttrs([]slog.Attr) slog.Handler        { return quiet{} }
+func (quiet) WithGroup(string) slog.Handler             { return quiet{} }
+
 func main() {
 	in := flag.String("cases", "", "ndjson file of cases exported by TLC")
 	maxFail := flag.Int("max-failures", 20, "")
 	progress := flag.String("progress", "", "file that receives the index of the case being run (to attribute a death of the process)")
+	concurrent := flag.Int("concurrent", 0, "decode the cases on this many inbound streams at the same time (binary built with -race: the race detector is the oracle)")
 	flag.Parse()
-	slog.SetDefault(slog.New(slog.NewTextHandler(io.Discard, nil)))
+	slog.SetDefault(slog.New(quiet{})) // (a handler with a mutex would order the goroutines of the -concurrent mode)
 	f, err := os.Open(*in)
 	if err != nil {
 		fmt.Fprintln(os.Stderr, err)
 		os.Exit(2)
 	}
 	defer f.Close()
+	if *concurrent > 0 {
+		var cases []Case
+		rd := bufio.NewReaderSize(f, 1<<20)
+		for {
+			line, err := rd.ReadBytes('\n')
+			if len(line) > 1 {
+				var c Case
+				if e := json.Unmarshal(line, &c); e == nil {
+					cases = append(cases, c)
+				}
+			}
+			if err != nil {
+				break
+			}
+		}
+		var wg sync.WaitGroup
+		for w := 0; w < *concurrent; w++ {
+			wg.Add(1)
+			go func(w int) {
+				defer wg.Done()
+				r := newRig([]string{"t/1", "z/1", "/1"})
+				for i := range cases {
+					c := cases[(i+w*7)%len(cases)]
+					r.run(&c, false)
+				}
+			}(w)
+		}
+		wg.Wait()
+		fmt.Printf("{\"cases\": %d, \"streams\": %d}\n", len(cases), *concurrent)
+		return
+	}
 	r := newRig([]string{"t/1", "z/1", "/1"})
 	rd := bufio.NewReaderSize(f, 1<<20)
 	type report struct {
